@@ -91,7 +91,7 @@ class _Worker:
                 self.buf += chunk
 
 
-def run_tasks(driver, fn, cases, timeout=10.0, procs=14, env=None, hooks=True, retry_noreturn=True,
+def run_tasks(driver, fn, cases, timeout=120.0, procs=14, env=None, hooks=True, retry_noreturn=True,
               pythonpath_first=None):
     """Run fn(case) of module `driver` for each case in worker subprocesses; results in input order."""
     e = worker_env(env, hooks=hooks, pythonpath_first=pythonpath_first)
